@@ -226,8 +226,10 @@ class MTSPEnv(RL4COEnvBase):
 
         # With distance, same as TSP
         elif self.cost_type == "sum":
-            locs = td["locs"]
-            locs_ordered = locs.gather(1, actions.unsqueeze(-1).expand_as(locs))
+            # Every subtour starts and ends at the depot: prepend it, the tour is closed by get_tour_length
+            locs_ordered = torch.cat(
+                [td["locs"][..., 0:1, :], gather_by_index(td["locs"], actions)], dim=1
+            )
             return -get_tour_length(locs_ordered)
 
         else:
